@@ -6,11 +6,14 @@
 //
 // usage: c13_run <chibicc> <trace 0|1> <cpu_s> <wall_s> <mem_mb> <asm-out-dir|->   (cwd = private scratch dir)
 // stdin : records  "R <id> <nbytes> <nopts>\n" <nopts lines, one option each> <nbytes raw bytes> "\n"
-// stdout: records  "S <id> <status> <errlen> <asmhash> <asmnew> <tracelen>\n" <errlen bytes> <tracelen bytes>
+// stdout: records  "S <id> <status> <errlen> <asmhash> <asmnew> <tracelen> <peak-rss-kb> <screened>\n" <errlen bytes> <tracelen bytes>
 //         status: E<n> exit code, S<n> killed by signal n, T wall-clock timeout
 //         asmhash: 16 hex digits FNV-1a of the output file when status is E0 and a file exists, else 0
+//         screened: 1 if the run was made under the screening limits (see main)
 //         asmnew: 1 if this runner moved the output to <asm-out-dir>/<hash>.s (first sighting), else 0
 #define _GNU_SOURCE
+#define STAGE1_MB 256L
+#define HEAVY_LOCK "/tmp/c13_heavy.lock"
 #include <errno.h>
 #include <fcntl.h>
 #include <signal.h>
@@ -18,6 +21,7 @@
 #include <stdio.h>
 #include <stdlib.h>
 #include <string.h>
+#include <sys/file.h>
 #include <sys/ptrace.h>
 #include <sys/resource.h>
 #include <sys/stat.h>
@@ -168,7 +172,11 @@ static int is_fatal_sig(int s) {
 }
 
 int main(int argc, char **argv) {
-  if (argc != 7) { fprintf(stderr, "usage: c13_run chibicc trace cpu wall mem_mb asmdir\n"); return 3; }
+  if (argc != 7 && argc != 10) { fprintf(stderr, "usage: c13_run chibicc trace cpu wall mem_mb asmdir [heavy_max screen_cpu screen_mem_mb]\n"); return 3; }
+  // throttle: once heavy_max runs of this batch ended in a timeout or at the memory limit, the remaining ones get the
+  // screening limits (the record says which limits were in force)
+  int heavy_max = argc == 10 ? atoi(argv[7]) : 0, heavy = 0;
+  int screen_cpu = argc == 10 ? atoi(argv[8]) : 0; long screen_mem = argc == 10 ? atol(argv[9]) : 0;
   chibicc = argv[1]; trace = atoi(argv[2]); cpu_s = atoi(argv[3]); wall_s = atoi(argv[4]);
   mem_mb = atol(argv[5]); asmdir = strcmp(argv[6], "-") ? argv[6] : NULL;
 
@@ -192,12 +200,29 @@ int main(int argc, char **argv) {
     if (fd < 0 || write(fd, data, nbytes) != nbytes) die("write v.c");
     close(fd);
 
+    // Memory discipline (the machine is shared): at most ONE child of any c13_run on the machine may own more than
+    // STAGE1_MB of address space at a time.  A throttled batch runs every case first with RLIMIT_AS = STAGE1_MB; an exit
+    // (any code) under that limit is the same exit under the full limit and is final, so is a CPU / wall timeout; a death
+    // by any other signal is re-run with the full limit while holding the machine-wide lock HEAVY_LOCK, and that second
+    // run is the one reported.  Unthrottled invocations (confirmations, replays) with a limit above STAGE1_MB run under
+    // the lock right away.
+    int screened = heavy_max > 0 && heavy >= heavy_max;
+    int stage = (heavy_max > 0 && !screened && mem_mb > STAGE1_MB) ? 1 : 2;
+    int st, timed_out, trlen; struct rusage ru; long mem_now; int cpu_now;
+  again:
+    cpu_now = screened ? screen_cpu : cpu_s; mem_now = screened ? screen_mem : stage == 1 ? STAGE1_MB : mem_mb;
+    int lk = -1;
+    if (stage == 2 && mem_now > STAGE1_MB) {
+      lk = open(HEAVY_LOCK, O_CREAT | O_RDWR | O_CLOEXEC, 0666);
+      if (lk >= 0) { fchmod(lk, 0666); flock(lk, LOCK_EX); }
+    }
+    unlink("v.s");
     pid_t pid = fork();
     if (pid < 0) die("fork");
     if (pid == 0) {
       struct rlimit rl;
-      rl.rlim_cur = cpu_s; rl.rlim_max = cpu_s + 1; setrlimit(RLIMIT_CPU, &rl);
-      rl.rlim_cur = rl.rlim_max = mem_mb << 20; setrlimit(RLIMIT_AS, &rl);
+      rl.rlim_cur = cpu_now; rl.rlim_max = cpu_now + 1; setrlimit(RLIMIT_CPU, &rl);
+      rl.rlim_cur = rl.rlim_max = mem_now << 20; setrlimit(RLIMIT_AS, &rl);
       rl.rlim_cur = rl.rlim_max = 0; setrlimit(RLIMIT_CORE, &rl);
       rl.rlim_cur = rl.rlim_max = STACK_LIMIT; setrlimit(RLIMIT_STACK, &rl);
       rl.rlim_cur = rl.rlim_max = 256L << 20; setrlimit(RLIMIT_FSIZE, &rl);
@@ -216,9 +241,10 @@ int main(int argc, char **argv) {
     }
 
     double deadline = now() + wall_s;
-    int st = 0, timed_out = 0, trlen = 0;
+    st = 0; timed_out = 0; trlen = 0;
+    memset(&ru, 0, sizeof ru);
     for (;;) {
-      pid_t r = waitpid(pid, &st, WNOHANG);
+      pid_t r = wait4(pid, &st, WNOHANG, &ru);
       if (r == pid) {
         if (WIFSTOPPED(st)) {
           int s = WSTOPSIG(st);
@@ -229,15 +255,24 @@ int main(int argc, char **argv) {
         break;
       }
       double left = deadline - now();
-      if (left <= 0) { kill(pid, SIGKILL); waitpid(pid, &st, 0); timed_out = 1; break; }
+      if (left <= 0) { kill(pid, SIGKILL); wait4(pid, &st, 0, &ru); timed_out = 1; break; }
       struct timespec ts = {(time_t)left, (long)((left - (time_t)left) * 1e9)};
       sigtimedwait(&chld, NULL, &ts);
+    }
+
+    if (lk >= 0) close(lk);                 // releases the lock
+    if (stage == 1 && !timed_out && WIFSIGNALED(st) && WTERMSIG(st) != SIGXCPU && WTERMSIG(st) != SIGKILL) {
+      stage = 2;
+      goto again;
     }
 
     char status[16];
     if (timed_out) strcpy(status, "T");
     else if (WIFSIGNALED(st)) snprintf(status, sizeof status, "S%d", WTERMSIG(st));
     else snprintf(status, sizeof status, "E%d", WEXITSTATUS(st));
+
+    if (timed_out || (WIFSIGNALED(st) && (WTERMSIG(st) == SIGXCPU || WTERMSIG(st) == SIGKILL || ru.ru_maxrss >= mem_now * 512)))
+      heavy++;
 
     int errlen = 0;
     fd = open("v.err", O_RDONLY);
@@ -252,7 +287,8 @@ int main(int argc, char **argv) {
         if (access(p, F_OK) != 0 && rename("v.s", p) == 0) isnew = 1;
       }
     }
-    printf("S %s %s %d %016lx %d %d\n", id, status, errlen, h, isnew, trlen);
+    /* last field: peak resident set of the child in KB (a death at the address-space limit is told from a wild access) */
+    printf("S %s %s %d %016lx %d %d %ld %d\n", id, status, errlen, h, isnew, trlen, (long)ru.ru_maxrss, screened);
     fwrite(err, 1, errlen, stdout);
     fwrite(tr, 1, trlen, stdout);
     fflush(stdout);
